@@ -17,6 +17,9 @@ def run(r):
     thorough = r.tier == 'thorough'
     r.model_check('RayRelMC', 'RayRel_thorough.cfg' if thorough else 'RayRel.cfg')
     r.exhaustive = True
+    if thorough:
+        from vlib import apalache
+        apalache.inductive(r, 'RayRelInd', timeout=1800)    # the endpoint group without bounds (any endpoints, any vectors, any length)
     s = tlc.simulate('RayRelMC', 'RayRel_sim.cfg', 'C01/sim', num=(3200 if thorough else 960), depth=(9 if thorough else 6), seed=r.seed + 1)
     r.transitions += s.generated
     for kind, tracer in COMBOS:
